@@ -233,9 +233,18 @@ func run(c *vf.Ctx) {
 			c.Violation(f.class, f.detail, payload{e.Render(), u.Name})
 		}
 	})
+	constBlocks(c, &idx)
 }
 
 func replay(raw json.RawMessage) (string, bool) {
+	var cp constPayload
+	if json.Unmarshal(raw, &cp) == nil && len(cp.Block) > 0 {
+		class, detail, _ := judgeBlock(cp.Block)
+		if class == "" {
+			return blockText(cp.Block) + ": builder and go/types agree on every constant's type", false
+		}
+		return detail, true
+	}
 	var p payload
 	if err := json.Unmarshal(raw, &p); err != nil {
 		return err.Error(), false
